@@ -2,6 +2,7 @@
 import concurrent.futures as cf
 import subprocess
 
+from props import c02
 from vlib import Case, run_parallel
 
 RULE = ("end-to-end through the real run_prompt loop (binary built with the scripted-line hook): random histories of 1-12 lines mixing definitions, redefinitions, function "
@@ -19,13 +20,25 @@ def hx(s):
 
 
 def nontrivial(c):
+    if c.line.startswith("core2 "):
+        return c.impl.startswith("code=")
     return any(t in c.impl for t in ("perr", "cerr", "rt:")) and "ok:" in c.impl
+
+
+def canon(s):
+    if s.startswith("line1"):
+        return "line1"
+    if s.startswith("code=") and " rterr" in s:
+        return s[: s.index(" rterr") + 6]      # the line number of the failure is C13's business
+    return s
 
 
 TAIL_DEF = "[1][9]; let "
 
 
 def classify(c):
+    if c.line.startswith("core2 "):
+        return "core2"
     want = c.spec[6:].split(";") if c.spec.startswith("steps ") else []
     got = c.impl.split(";")
     lines = (c.extra or {}).get("lines", [])
@@ -40,6 +53,11 @@ def classify(c):
 
 
 def model_skip(c):
+    if c.line.startswith("core2 "):
+        # `last` (a stale stack slot) is not part of the model's output: compare the rest
+        a = [x for x in c.impl.split(" ") if not x.startswith("last=")]
+        b = [x for x in c.model.split(" ") if not x.startswith("last=")]
+        return a == b
     return True
 
 
@@ -102,6 +120,25 @@ def cases(ctx):
     for h in hist:
         line = "repl @@ " + " @@ ".join(asts.get(l, "(perr)") for l in h)
         out.append(Case(line, ("history",), extra={"lines": h}))
+    # the REPL's second line at the compiler/VM level (theorem accepted_lines_compose): compiled at byte 0 in the carried
+    # state; the functional compiler model must be byte-exact with Compiler::new_with_state, the result the one-program run
+    pairs = []
+    for _ in range(ctx.scale(600, 30000)):
+        typed = rng.random() < 0.85
+        l1 = c02.core_program(rng, typed=True)
+        names = sorted(set(w[4:].split(" ")[0] for w in l1.split("\n") if w.startswith("let ") and not w.startswith("let i")))
+        l2 = []
+        c02.core_stmts(rng, names, 0, l2, "", [50], c02.core_int if typed else None)
+        pairs.append((l1, "\n".join(l2) + "\n"))
+    if ctx.harness:
+        flat = [x for pr in pairs for x in pr]
+        outs = run_parallel(ctx.harness, ["parse " + hx(l) for l in flat], timeout=60)
+        ast = {}
+        for l, o in zip(flat, outs):
+            i = o.find("(prog")
+            ast[l] = o[i:] if (o.startswith("ast ") and " errs=0 " in o[:i]) else "(perr)"
+        for l1, l2 in pairs:
+            out.append(Case(f"core2 {hx(l1)} {hx(l2)} @@ {ast[l1]} @@ {ast[l2]}", ("core2",), extra={"lines": [l1, l2]}))
     return out
 
 
@@ -139,7 +176,17 @@ def run_one(exe, c):
 
 def run_impl(ctx, cases):
     exe = ctx.p2sh.get("dev")
+    outs = [None] * len(cases)
+    cidx = [k for k, c in enumerate(cases) if c.line.startswith("core2 ")]
+    co = run_parallel(ctx.harness, [cases[k].line for k in cidx], timeout=60, label="harness") if ctx.harness else ["NOHARNESS"] * len(cidx)
+    for k, o in zip(cidx, co):
+        outs[k] = o
+    ridx = [k for k, c in enumerate(cases) if not c.line.startswith("core2 ")]
     if not exe:
-        return ["NOHARNESS"] * len(cases)
-    with cf.ThreadPoolExecutor(max_workers=16) as ex:
-        return list(ex.map(lambda c: run_one(exe, c), cases))
+        for k in ridx:
+            outs[k] = "NOHARNESS"
+    else:
+        with cf.ThreadPoolExecutor(max_workers=16) as ex:
+            for k, o in zip(ridx, ex.map(lambda k: run_one(exe, cases[k]), ridx)):
+                outs[k] = o
+    return outs
